@@ -270,6 +270,7 @@ ASSERT_OK = [
     ("tempfile::TempDir::new_in", "fs::fs_disk::TmpFileSystem::new", "test file system constructor; no database is open yet"),
 ]
 PANICKING = {"std::result::Result::unwrap", "std::result::Result::expect"}
+STORAGE_ERRORS = ("std::io::Error", "errors::", "IOError", "ReadError", "WriteError", "BuilderError", "RecoverError", "CompactionWorkerError", "RainDBError")
 
 
 def err6_no_panic_on_a_fallible_result(P, R, L, rule="ERR-6"):
@@ -279,7 +280,7 @@ def err6_no_panic_on_a_fallible_result(P, R, L, rule="ERR-6"):
     must come from one of the callees confirmed infallible by reading (table ASSERT_OK: in-memory serialisation, formatting,
     channel ends, constructors that run before a database is open)."""
     from .. import err
-    n = sites = 0
+    n = sites = out_of_scope = 0
     for p, b in sorted(P.bodies_as_written.items()):
         for cs in err.result_sites(b):
             if cs.name in (err.TRY_BRANCH, err.FROM_RESIDUAL) or cs.name in err.ALIASING or cs.name in err.CHAINING:
@@ -303,6 +304,13 @@ def err6_no_panic_on_a_fallible_result(P, R, L, rule="ERR-6"):
             # a result that is also tested / propagated (`if r.is_err() { return .. } r.unwrap()`) is handled: the panic is unreachable
             if err.result_tests(b, cs.dest["l"]):
                 continue
+            # only storage-layer failures are in scope: std::io::Error and the crate's own error enums (a `TryFromIntError`,
+            # `FromUtf8Error`, `fmt::Error` or a closed channel is not a failing file system)
+            ty = b.local_ty(cs.dest["l"]) or ""
+            err_ty = ty.split(",", 1)[1] if "," in ty else ty
+            if not any(x in err_ty for x in STORAGE_ERRORS):
+                out_of_scope += 1
+                continue
             n += 1
             R.analysed(b)
             nm, dn = cs.name or "", cs.declared_name or ""
@@ -311,7 +319,7 @@ def err6_no_panic_on_a_fallible_result(P, R, L, rule="ERR-6"):
                     "a Result consumed only by unwrap / expect comes from a callee confirmed infallible (table ASSERT_OK)",
                     ("ok: " + row[0][2]) if row else "%s can fail; its Err panics at line %s" % (nm, pan[0].t.get("line")))
     R.call_sites += sites
-    R.floor(rule, "unwrap / expect sites of Results examined", n, 30)
+    R.floor(rule, "unwrap / expect sites of storage-layer Results examined", n, 20)
 
 
 # ------------------------------------------------------------------------------------------- BSRCH-2 a seek that keeps the cursor does so only on an exact hit
@@ -1034,3 +1042,62 @@ def role3_snapshot_levels(P, R, L, rule="ROLE-3"):
         ok, found = False, "the level argument derives from %s" % os_[:3]
     R.check(rule, fn + "|snapshot-level-is-the-position-in-the-version", ok, where(b),
             "add_file's level is a range-loop variable over the levels or the index of an enumerate() over the unfiltered list of levels", found)
+
+
+# ------------------------------------------------------------------------------------------- ORD-8b (width) the published sequence span is not narrowed
+NARROW = ("u32", "u16", "u8", "i32", "i16", "i8")
+
+
+def narrowing_casts(b, op, depth=10, seen=None):
+    """integer casts to a type narrower than 64 bits on the def chain of an operand (through copies, casts, From/Into conversions and
+    additions), as (type, line)"""
+    seen = seen if seen is not None else set()
+    out = []
+    if op.get("k") not in ("copy", "move") or depth <= 0:
+        return out
+    l = op["pl"]["l"]
+    if l in seen:
+        return out
+    seen.add(l)
+    for d in b.defs().get(l, []):
+        if d[0] == "stmt":
+            rv = d[3]["rv"]
+            if rv["k"] == "cast":
+                if rv.get("ty") in NARROW and rv.get("ck", "IntToInt") == "IntToInt":
+                    out.append((rv.get("ty"), d[3].get("line")))
+                out += narrowing_casts(b, rv["ops"][0], depth - 1, seen)
+            elif rv["k"] in ("use", "binop", "unop"):
+                for x in rv.get("ops", []):
+                    out += narrowing_casts(b, x, depth - 1, seen)
+        elif d[0] == "call":
+            t = d[3]
+            nm = _last((t.get("callee") or "").split("<")[0]) if t.get("callee") else ""
+            from ..cfg import strip_generics
+            full = strip_generics(t.get("resolved") or t.get("callee") or "")
+            if _last(full) in ("from", "into", "try_from", "try_into", "unwrap", "expect", "unwrap_or", "unwrap_or_default") and t["args"]:
+                # `u16::try_from(len)` / `u64::from(x)`: a conversion whose TARGET is narrow is a narrowing as well
+                dest_ty = b.local_ty(t["dest"]["l"]) if not t["dest"]["p"] else ""
+                if _last(full) in ("try_from", "try_into") and any(("<%s," % n) in dest_ty or dest_ty.startswith("std::result::Result<%s," % n) for n in NARROW):
+                    out.append((dest_ty, t.get("line")))
+                out += narrowing_casts(b, t["args"][0], depth - 1, seen)
+    return out
+
+
+def ord8b_span_not_narrowed(P, R, L, rule="ORD-8b"):
+    """The sequence number published after a group commit is prev + len(batch) at full width: the batch length reaches the
+    addition without an integer cast / conversion to a type narrower than 64 bits.  (The memtable insert numbers the operations
+    with a u64 counter: a published span that wraps at 2^16 leaves the tail of a large batch invisible, and later writes then
+    reveal it one operation at a time.)"""
+    from . import common as K
+    b = P.body(K.APPLY)
+    if b is None:
+        return R.missing_anchor(rule, K.APPLY)
+    R.analysed(b)
+    pubs = K.normal_sites(b, K.SET_PREV_SEQ)
+    starts = K.normal_sites(b, "batch::Batch::set_starting_seq_number")
+    bad = []
+    for c in pubs + starts:
+        bad += narrowing_casts(b, c.args[1])
+    R.check(rule, K.APPLY + "|sequence-span-at-full-width", bool(pubs) and not bad, where(b),
+            "the values handed to set_prev_sequence_number / set_starting_seq_number are computed without a cast to fewer than 64 bits",
+            "ok" if pubs and not bad else "narrowed: %s" % bad[:3])
